@@ -25,7 +25,7 @@ RULE = (
     "Cases: the shared closed-CFG sweep (enumerated n<=5 slice, Hypothesis graphs, corpus shapes) with plain, bytecode-range and AST payloads at the "
     "stage prefixes none/closed/loop/branch rendered by SCFGRenderer; plus ByteFlow objects of standard-library functions at every stage rendered by "
     "ByteFlowRenderer. Oracle: the DOT source is parsed by an own parser and compared with an own flattening of the hierarchy: node set, cluster tree, "
-    "solid/dashed edge multisets with region targets resolved to the innermost header, label contents. Non-trivial = the drawing has an edge into a "
+    "solid/dashed edge multisets with region targets resolved to the innermost header, label contents. Further legs: inputs with caller-declared back edges; the same renderer object asked twice, a second fresh rendering, and the graph untouched by rendering; AST statements edited in place and drawn again; flat graphs with many-way blocks; deeply nested graphs and many-way loops. Non-trivial = the drawing has an edge into a "
     "region whose header is itself a region. Distinct = hash of (input, payload)."
 )
 ASSUME = ["only the DOT source is judged (no viewer / PDF)", "ByteFlow cases are limited to functions for which ByteFlow.from_bytecode and restructuring complete (their failures belong to C09/C02)"]
